@@ -142,6 +142,10 @@ WITNESS = [
      {"op": "reopen"}, {"op": "put", "k": 1, "c": "G"}, {"op": "put", "k": 2, "c": "G"}, {"op": "put", "k": 4, "c": "C"},
      {"op": "delr", "lo": ["U", 0], "hi": ["I", 3]}, {"op": "put", "k": 2, "c": "E"}, {"op": "put", "k": 3, "c": "E"}, {"op": "put", "k": 1, "c": "C"},
      {"op": "delr", "lo": ["X", 1], "hi": ["X", 4]}, {"op": "reopen"}, {"op": "delr", "lo": ["U", 0], "hi": ["U", 0]}, {"op": "reopen"}],
+    # a content of more than 1 MiB (1.2 MB): stored, shared, read whole and through windows of more than 1 MiB after every step,
+    # overwritten by a small one and back, reclaimed, stored again
+    [{"op": "put", "k": 2, "c": "M"}, {"op": "put", "k": 4, "c": "M"}, {"op": "put", "k": 2, "c": "B"}, {"op": "reopen"}, {"op": "put", "k": 2, "c": "M"},
+     {"op": "del", "k": 4}, {"op": "del", "k": 2}, {"op": "put", "k": 1, "c": "M"}, {"op": "ckpt"}, {"op": "reopen"}],
 ]
 
 
